@@ -14,9 +14,10 @@ import re
 from engine import analysis as A
 from .common import expr_tree, mk_call, call_tree, rvalue_tree, split_call
 
-PROPS = ("C02", "C03", "C04", "C05", "C06", "C07", "C17", "C19")
-SA, SL, T, U = (1, 0, 0, 0), (0, 1, 0, 0), (0, 0, 1, 0), (0, 0, 0, 1)
-ONE = (0, 0, 0, 0)
+PROPS = ("C02", "C03", "C04", "C05", "C06", "C07", "C15", "C17", "C19", "C20")
+SA, SL, T, U, SEC, SLOT = (1, 0, 0, 0, 0, 0), (0, 1, 0, 0, 0, 0), (0, 0, 1, 0, 0, 0), (0, 0, 0, 1, 0, 0), (0, 0, 0, 0, 1, 0), (0, 0, 0, 0, 0, 1)
+ONE = (0, 0, 0, 0, 0, 0)
+NDIM = 6
 WILD = "wild"
 
 
@@ -35,7 +36,7 @@ def ustr(u):
         return "const"
     if isinstance(u, tuple) and u and u[0] == "var":
         return "unit(%s)" % u[1]
-    names = ("asset-shares", "liability-shares", "tokens", "usd")
+    names = ("asset-shares", "liability-shares", "tokens", "usd", "seconds", "slots")
     num = [n if e == 1 else "%s^%d" % (n, e) for n, e in zip(names, u) if e > 0]
     den = [n if e == -1 else "%s^%d" % (n, -e) for n, e in zip(names, u) if e < 0]
     s = "*".join(num) or "1"
@@ -47,6 +48,8 @@ FIELD_UNITS = {
     "asset_share_value": udiv(T, SA), "liability_share_value": udiv(T, SL),
     "deposit_limit": T, "borrow_limit": T, "total_asset_value_init_limit": U,
     "collected_insurance_fees_outstanding": T, "collected_group_fees_outstanding": T, "collected_program_fees_outstanding": T,
+    # time: unix seconds vs slots (venue staleness, pause windows)
+    "unix_timestamp": SEC, "slot": SLOT, "pause_start_timestamp": SEC, "last_daily_reset_timestamp": SEC, "last_cache_update": SEC,
 }
 # name -> ([unit of each non-self argument or None], result unit or None); first argument is `self` where marked
 SIGS = {
@@ -202,7 +205,7 @@ class Env:
 
 
 def _concrete(u):
-    return isinstance(u, tuple) and len(u) == 4 and not (u and u[0] == "var")
+    return isinstance(u, tuple) and len(u) == NDIM and not (u and u[0] == "var")
 
 
 def unit_of(n, env, memo):
@@ -249,15 +252,16 @@ def _unit_of(n, env, memo):
             return WILD
         return None
     if n.kind == "phi":
-        u = None
-        first = True
-        for a in n.args:
-            ua = unit_of(a, env, memo)
-            if first:
-                u, first = ua, False
-            else:
-                u = env.unify(u, ua, "alternatives of " + n.text[:160], "", _why(env, a, ua))
-        return u
+        # a value selected among alternatives (match / if): the alternatives may legitimately differ in dimension when the result is only
+        # compared with constants (Balance::is_empty picks the asset or the liability shares by side), so a phi never raises a conflict by
+        # itself; it has a dimension only when all alternatives agree
+        us = [env.resolve(unit_of(a, env, memo)) for a in n.args]
+        conc = [u for u in us if u != WILD]
+        if conc and all(_concrete(u) for u in conc) and len(set(conc)) == 1:
+            return conc[0]
+        if not conc:
+            return WILD
+        return None
     if n.kind == "agg":
         nm = n.name.split("::")[-1]
         if nm in ("Ok", "Some", "Continue") and len(n.args) == 1:
@@ -321,7 +325,36 @@ def _skip(k):
             or "::events::" in k)
 
 
-def analyse_fn(prog, f):
+PARAM_UNITS = {}       # id(prog) -> {fn key: {param index: concrete unit}} (inferred from each body in a first pass)
+
+
+def param_units(prog):
+    """first pass: the dimension each function's own body forces on its parameters (e.g. socialize_loss(loss_amount: tokens),
+    is_stale(slot: slots)); used as that function's signature at its call sites in the second pass"""
+    key = id(prog)
+    if key in PARAM_UNITS:
+        return PARAM_UNITS[key]
+    PARAM_UNITS[key] = {}
+    out = {}
+    for f in scope(prog):
+        try:
+            env = analyse_fn(prog, f)
+        except Exception:
+            continue
+        if env.conflicts:
+            continue          # an inconsistent body defines no signature (its own conflict is reported)
+        pu = {}
+        for i in range(1, f.argc + 1):
+            u = env.resolve(("var", "p%d" % i))
+            if _concrete(u):
+                pu[i] = u
+        if pu:
+            out[f.key] = pu
+    PARAM_UNITS[key] = out
+    return out
+
+
+def analyse_fn(prog, f, sigs=None):
     """Env after collecting the constraints of every call / arithmetic / store site of f"""
     env = Env()
     memo = {}
@@ -351,6 +384,15 @@ def analyse_fn(prog, f):
         if t["k"] == "call":
             ci = f.dinfo(t["res"]) if t.get("res") is not None else (f.dinfo(t["raw"]) if "raw" in t else None)
             nm = ci["name"] if ci else None
+            if sigs and ci and ci["key"] in sigs and ci["key"] != f.key and nm not in SIGS:
+                for i, want in sigs[ci["key"]].items():
+                    if i - 1 < len(t["args"]):
+                        try:
+                            tr = expr_tree(prog, f, t["args"][i - 1])
+                            ua = unit_of(parse(tr), env, memo)
+                            env.unify(ua, want, "argument %d of %s: %s" % (i, nm, tr[:140]), tr[:120], "%s uses its parameter %d as %s" % (nm, i, ustr(want)))
+                        except RecursionError:
+                            pass
             if nm is None or not (nm in SIGS or nm in UNIFY or nm in MUL or nm in DIV):
                 continue
             try:
@@ -364,7 +406,9 @@ def analyse_fn(prog, f):
 def scope(prog):
     for k in sorted(prog.fns):
         f = prog.fns[k]
-        if f.info["crate"] != "marginfi" or _skip(k):
+        if f.info["crate"] not in ("marginfi", "marginfi_type_crate", "kamino_mocks", "drift_mocks", "solend_mocks") or _skip(k):
+            continue
+        if f.info["crate"].endswith("_mocks") and ("::cpi::" in k or "::internal::" in k or "::instruction::" in k or "::accounts::" in k or "::client::" in k):
             continue
         yield f
 
@@ -377,6 +421,8 @@ ATTR = [
     (r"accrue_interest|calc_interest|interest_rate", "C06"),
     (r"get_remaining_deposit_capacity|check_utilization_ratio|\{impl#\d+\}::change_(asset|liability)_shares$", "C17"),
     (r"collect_bank_fees|emissions", "C19"),
+    (r"_mocks::|::price::|is_stale|staleness", "C20"),
+    (r"panic_state|PanicState|panic_pause|panic_unpause", "C15"),
 ]
 
 
@@ -393,14 +439,17 @@ def check_units(ctx, pid):
     """rule <pid>.U: no function charged to this property mixes units"""
     prog = ctx.prog
     n = 0
+    sigs = param_units(prog)
     for f in scope(prog):
         try:
-            env = analyse_fn(prog, f)
+            env = analyse_fn(prog, f, sigs)
         except Exception as e:      # a tree the parser / resolver cannot handle is no verdict
             continue
         if not env.nleaves and not env.conflicts:
             continue
         short = re.sub(r"\{impl#\d+\}::", "", f.key.split("::", 1)[1] if "::" in f.key else f.key)
+        if f.info["crate"] != "marginfi":
+            short = f.info["crate"] + "::" + short
         confl = env.conflicts
         mine = [c for c in confl if owner_of(f, c) == pid]
         base_owner = owner_of(f)
